@@ -248,8 +248,27 @@ def strip(e):
     return {k: e[k] for k in ('id', 'fam', 'group', 'toks', 'fidx', 'stdin', 'exit', 'stdout', 'solo')}
 
 
+def binary_independence(ctx):
+    """Independence clause on binary inputs (default display carries file name and dump): harness/c17b + TraceCLIIndep.tla."""
+    b = ctx.go_build('c17b')
+    ep = os.path.join(ctx.build, 'indep_events.ndjson')
+    ctx.run([b, 'indep', ep], check=True, timeout=900)
+    cfg = 'SPECIFICATION TSpec\nPOSTCONDITION Consumed\nCHECK_DEADLOCK FALSE\n'
+    rej, _, _ = ctx.tv('TraceCLIIndep', 'ti.cfg', ep, name='tv_indep', cfg_text=cfg)
+    evs = vlib.read_ndjson(ep)
+    ctx.cov['traces_validated_against_impl'] += len(evs)
+    ctx.cov['binary_independence_command_lines'] = len(evs)
+    for l, sig in rej:
+        e = evs[l - 1]
+        ctx.finding(sig, 'fq %r %s: exit %d, stdout %d bytes, solo concatenation %d bytes' % (e['prog'], ' '.join(e['inputs']), e['exit'], e['got_len'], e['want_len']), e)
+    bad = dict(evs[3]); bad['equal'] = False
+    bad2 = dict(evs[4]); bad2['exit'] = 5
+    ctx.binding_demo('TraceCLIIndep', 'ti.cfg', [evs[2], bad, bad2], [2, 3], cfg_text=cfg)
+
+
 def run(ctx):
     thorough = ctx.tier == 'thorough'
+    binary_independence(ctx)
     ctx.cov['rule'] = ('one evaluation = one real command line through in-process interp.Main (solo runs not counted) or one real _args_parse call; '
                        'distinct non-trivial = distinct (argv, stdin) command lines judged by TraceCLI that have at least one flag token and either '
                        '>= 2 input files or a failing input / argument error / non-zero exit')
